@@ -107,6 +107,8 @@ fn stmts(name: &str) -> Vec<(&'static str, [String; 3])> {
                                     Query::select().expr(Func::cast_as_quoted("x", n(), Quote::new(b'"'))).to_owned().to_string(PostgresQueryBuilder),
                                     Query::select().expr(Func::cast_as_quoted("x", n(), Quote::new(b'"'))).to_owned().to_string(SqliteQueryBuilder)]));
     v.push(("enum cast type", [String::new(), Query::select().expr(Expr::val("x").as_enum(Alias::new(name))).to_owned().to_string(PostgresQueryBuilder), String::new()]));
+    // the array form `CAST(x AS "name"[])`: the element type's name is the identifier, `[]` stays outside the quotes
+    v.push(("enum array cast type", [String::new(), Query::select().expr(Expr::val("x").as_enum(Alias::new(format!("{name}[]")))).to_owned().to_string(PostgresQueryBuilder), String::new()]));
     v.push(("on conflict excluded", [String::new(), Query::insert().into_table(a()).columns([Alias::new(name)]).values_panic([1.into()]).on_conflict(OnConflict::column(Alias::new(name)).update_column(Alias::new(name)).to_owned()).to_owned().to_string(PostgresQueryBuilder), String::new()]));
     v
 }
